@@ -190,8 +190,8 @@ impl Worker {
     pub fn prepare(&mut self, c: &Case) {
         self.configure(c.dialect, &c.cfg);
     }
+    /// `prepare(c)` must have been called.
     pub fn run(&mut self, c: &Case) -> Outcome {
-        self.prepare(c);
         let t0 = Instant::now();
         let dict = self.dict.clone();
         let doc = match guarded_loc(|| frontends::make_document(&c.fe, &c.text, &dict)) {
@@ -236,9 +236,17 @@ pub fn run_cases(cases: Arc<Vec<Case>>, threads: usize, deadline: Duration) -> V
                         *slot.lock().unwrap() = None;
                         break;
                     }
-                    w.prepare(&cases[i]);
-                    *slot.lock().unwrap() = Some((i, Instant::now()));
-                    let out = w.run(&cases[i]);
+                    // building the ~290 curated rules runs pattern code too: a panic there is a finding, not a dead worker
+                    let out = match guarded_loc(|| w.prepare(&cases[i])) {
+                        Err((msg, loc)) => {
+                            w = Worker::new();
+                            Outcome::Panic { stage: "setup (LintGroup::new_curated / configuration)", msg, loc }
+                        }
+                        Ok(()) => {
+                            *slot.lock().unwrap() = Some((i, Instant::now()));
+                            w.run(&cases[i])
+                        }
+                    };
                     let mut res = results.lock().unwrap();
                     if res[i].is_none() {
                         res[i] = Some(out);
@@ -253,9 +261,10 @@ pub fn run_cases(cases: Arc<Vec<Case>>, threads: usize, deadline: Duration) -> V
             .unwrap()
     };
     let mut slots: Vec<Slot> = vec![];
+    let mut handles = vec![];
     for _ in 0..threads.max(1) {
         let slot: Slot = Arc::new(Mutex::new(None));
-        spawn(slot.clone(), next.clone(), results.clone(), cases.clone());
+        handles.push(Some(spawn(slot.clone(), next.clone(), results.clone(), cases.clone())));
         slots.push(slot);
     }
     let mut hangs = 0usize;
@@ -277,15 +286,27 @@ pub fn run_cases(cases: Arc<Vec<Case>>, threads: usize, deadline: Duration) -> V
                         hangs += 1;
                         // abandon the hung thread (it cannot be killed) and start a fresh worker
                         let slot: Slot = Arc::new(Mutex::new(None));
-                        if hangs < MAX_HANGS {
-                            spawn(slot.clone(), next.clone(), results.clone(), cases.clone());
-                        }
+                        // the hung thread's handle is dropped (detached); handles[k] tracks the live worker of slot k
+                        handles[k] = if hangs < MAX_HANGS { Some(spawn(slot.clone(), next.clone(), results.clone(), cases.clone())) } else { None };
                         slots[k] = slot;
                     }
                 } else {
                     busy += 1;
                 }
             }
+        }
+        if busy == 0 && handles.iter().all(|h| h.as_ref().map(|h| h.is_finished()).unwrap_or(true)) {
+            // every worker is gone (died outside a guarded region, or all hung) but cases remain
+            std::thread::sleep(Duration::from_millis(100));
+            let mut res = results.lock().unwrap();
+            let mut first = true;
+            for r in res.iter_mut() {
+                if r.is_none() {
+                    *r = Some(if first && hangs < MAX_HANGS { Outcome::Panic { stage: "worker", msg: "a worker thread died outside catch_unwind".into(), loc: last_panic_location() } } else { Outcome::Skipped });
+                    first = false;
+                }
+            }
+            break;
         }
         if hangs >= MAX_HANGS {
             // enough evidence: stop handing out cases, let the cases in flight finish (or time out)
@@ -341,13 +362,15 @@ const MD_UNTERMINATED: &[&str] = &[
     "a | b ]]", "$math", "$$", "$$\nx", "$a$", "![img](", "<!--", "<!-- teh -->", "&amp", "&amp;", "&#x1F600;", "\\", "* * *", "- [ ] task", "- [x", "[^1]: foot", "[^1]", "~~strike",
     "# ", "#", "###### h", "Setext\n===", "a\n---", "    indented code", "\ttab", "a  \nb", "a\\\nb", "<a href=\"x\">teh</a>", "<https://x.y>", "https://x.y", "a\n\n\n\nb", "* a\n\n  b\n* c",
     "1. a\n   - b\n     > c", "> - a\n> - b", "- ```\n  code", "- ```\n\t\tx", "> ```\n> \t\tx", "Term\n: definition", "---\ntitle: x\n---\ntext", "+++\na\n+++", "{#id .class}", "# h {#id}",
+    // two words that are neighbours in the token list without whitespace between them (markup is not a token)
+    "the*the*", "**very**very much", "teh[teh](x)", "is~~is~~ is", "a*a*a", "The **The** the*the* end.", "that_that_", "and<b>and</b>",
     "a[^n]\n\n[^n]: teh note", "*a **b* c**", "_a_b_", "\u{0}", "a\u{0}b", "\r", "a\rb", "a\r\n\r\nb", "\u{feff}# h", "  \n  ", "\n\n\n", "\t", " \t \n",
 ];
 
 const HTML_UNTERMINATED: &[&str] = &[
     "<p", "<p>text", "<p>text</", "<p>text</p", "<!-- comment", "<!--", "<script>", "<script>var teh", "<style>p{", "&nbsp", "&nbsp;", "<a href=\"", "<a href=\"x\">teh",
     "<![CDATA[", "<br/>", "<p>a<br>b</p>", "text only", "<p>a</p>  <p>b</p>", "<ul><li>a<li>b", "</p>", "<>", "< p>", "<p\n>a", "<p>😀 teh</p>", "<p>é</p><p>teh</p>", "<!DOCTYPE html>",
-    "<p>a&lt;b</p>", "<textarea>teh", "<title>teh", "<p title='teh'>a</p>", "<svg><text>teh</text></svg>", "<p>a\n\nb</p>",
+    "<p>the<b>the</b></p>", "<p>very<i>very</i> much</p>", "<p>a<br>a</p>", "<p>a&lt;b</p>", "<textarea>teh", "<title>teh", "<p title='teh'>a</p>", "<svg><text>teh</text></svg>", "<p>a\n\nb</p>",
 ];
 
 const TYPST_UNTERMINATED: &[&str] = &[
@@ -358,7 +381,7 @@ const TYPST_UNTERMINATED: &[&str] = &[
     "\\", "\\#", "\\u{1F600}", "#context", "#context text.lang", "#include", "#include \"a\"", "#x(..y)", "#x(a: 1)[b]", "#rgb(\"fff\")", "#raw(\"teh\", theme: \"x\")", "#cite(<a>, style: \"x\")",
     "#a.display()", "#return", "#break", "#none", "#1", "#1.5em", "#x => y", "#((x) => y)", "#(x, y) => z", "#{x = 1}", "#{(a, b) = c}", "#{x += 1}", "a -- b --- c ... ~", "\"quoted\" 'single'",
     "'", "\"", "a'b", "#", "##", "#!", "a#b", "a #b c", "$ #x $", "#$x$", "=== H\ntext", "= H\n\n= I", "- a\n\nb", "a \\\nb", "#[\n]", "#[ ]", "#table(columns: 2)[a][b]", "#link(\"x\")[teh]",
-    "#text(fill: red)[teh]", "#par[teh]", "#emph[teh]", "#strong[", "#lorem(5)", "#x.at(0)", "#x.y = 1", "#{x.y = 1}", "#let x = y.z", "#set x.y(z: 1)", "#show x.y: z", "#show: x.y", "#set text(1pt) if x",
+    "*the*the", "the_the_ end", "very#[very] much", "a*a*a", "#text(fill: red)[teh]", "#par[teh]", "#emph[teh]", "#strong[", "#lorem(5)", "#x.at(0)", "#x.y = 1", "#{x.y = 1}", "#let x = y.z", "#set x.y(z: 1)", "#show x.y: z", "#show: x.y", "#set text(1pt) if x",
 ];
 
 const LHS_UNTERMINATED: &[&str] = &[
@@ -367,7 +390,7 @@ const LHS_UNTERMINATED: &[&str] = &[
 ];
 
 const COMMENT_BODIES: &[&str] = &[
-    "", " ", "teh", "{@link foo", "{@link foo}", "{@link", "{@", "{", "{@link foo} {@link", "@param x teh", "@param", "@", "a @b c", "{@code a\nb}", "```\ncode\n```", "```", "```\ncode",
+    "", " ", "teh", "the*the*", "**very**very much", "{@link foo", "{@link foo}", "{@link", "{@", "{", "{@link foo} {@link", "@param x teh", "@param", "@", "a @b c", "{@code a\nb}", "```\ncode\n```", "```", "```\ncode",
     "go:generate foo", "go:build x\n", "go:build x\nteh words", "go:", "spellchecker:ignore teh", "harper:ignore", "> \t\tx", "- \t\tx", "a\n\n\n\nb", "a\n\n\n\n\nb", "TODO: teh", "<p>teh</p>",
     "<b>teh", "* a\n* b", "1. a", "# h", "a `b` c", "[a](b)", "é😀 teh", "\t", "!", "!!", "*", "-", "#", "/", "a */ b", "a /* b", "a -- b", "a # b", "\\", "a\\", "'", "\"",
 ];
@@ -576,6 +599,7 @@ fn scaling_probe(rep: &mut Report, a: &Args) {
             for mult in [1usize, 2, 4] {
                 let text = unit.repeat(reps0 * mult);
                 let c = Case { fe: fe.into(), text, cfg: "all".into(), dialect: 0, origin: "scaling".into() };
+                w.prepare(&c);
                 let t0 = Instant::now();
                 let _ = w.run(&c);
                 ts.push(t0.elapsed().as_secs_f64().max(1e-6));
